@@ -158,6 +158,9 @@ def havoc(eng, st, body, extra_alias=None, also_names=()):
     for n in sorted(names):
         if n in s.env:
             s.env[n] = havoc_value(eng, n, s.env[n])
+    from . import generators
+    if "#out" in s.ghost and generators.body_yields(body):
+        s = generators.havoc_out(eng, s)
     al = aliases(body, extra_alias)
     for root, field in store_roots(body):
         for r in al.get(root, {root}):
